@@ -126,6 +126,22 @@ package recordio
 //@   exit [C04,C07:buffer-flushed] r0 == nil ==> called(WriteSeekerCloserFlusher.Flush, 0) && callres(WriteSeekerCloserFlusher.Flush, 0, 0) == nil
 //@   ensures [marked-closed] w.closed && !w.open
 
+// Sequential reader interface (ReaderI) as its users see it: rdPos(r) records were consumed so far.
+//@ ghost rdPos(r Ref) Int
+//@ ghost rdClosed(r Ref) Bool
+
+//@ iface ReaderI.Open
+//@   modifies nothing
+
+//@ iface ReaderI.ReadNext
+//@   ensures [step] r1 == nil ==> rdPos(this) == old(rdPos(this)) + 1
+//@   ensures [no-step] r1 != nil ==> rdPos(this) == old(rdPos(this))
+//@   modifies rdPos(this)
+
+//@ iface ReaderI.Close
+//@   ensures rdClosed(this)
+//@   modifies rdClosed(this)
+
 // ---------------------------------------------------------------------------------------------------
 // Sequential reader (C04): skipping a record moves to the same position reading it would.
 
